@@ -481,9 +481,14 @@ func c14Finish(w *World) {
 					wrong = true
 				}
 			}
-			if wrong {
+			switch {
+			case wrong:
 				r.Violate("C14", "index_wrong_after_fetch_errors", nil, "index holds entries an uninterrupted run does not have: %s", why)
-			} else {
+			case fetchFaults <= 10:
+				// the service gives a block up only after more than 10 failed attempts during start-up: with fewer failed
+				// fetches in the whole run every block is eventually indexed once the errors stop
+				r.Violate("C14", "blocks_missing_after_fetch_errors_stopped", nil, "%d fetches failed in the whole run; after they stopped and the service caught up, blocks are still missing from the index: %s", fetchFaults, why)
+			default:
 				r.Cross["c14:blocks_missing_after_fetch_errors"]++
 			}
 		default:
